@@ -64,7 +64,8 @@ RULE = (
     "positional placeholders) for the four styles, with and without "
     "arbitrary-fields) followed by a history of <=6 operations {call-factory, "
     "reopen-all, reopen(i), close-all, drop(i), gc, emit, advance, "
-    "close-all with ENOSPC on one handler's flush}.  "
+    "close-all with ENOSPC on one handler's flush, external rotation of a "
+    "log file / re-pointing of the symbolic link it is configured as}.  "
     "Non-trivial: the load was accepted and at least one factory was called "
     "(or the load was rejected for a modelled reason); distinct = distinct "
     "sha256 of (configuration text, operations).")
@@ -521,7 +522,10 @@ def gen_handler(rng, k, p_bad=0.3):
             if rng.random() < 0.4:
                 h[key] = rng.choice(vals)
     elif std or r < 0.35:
-        pass
+        if not std and rng.random() < 0.3:
+            # the configured path is a symbolic link (current.log ->
+            # app-01.log) that an external rotation re-points
+            h["symlink"] = True
     elif r < 0.65:
         h["max_size"] = rng.choice(["100", "1kb", "2KB", "1mb"])
         h["old_files"] = str(rng.randint(1, 3))
@@ -609,11 +613,11 @@ def generate(rng, tier, index):
     for k_op in range(rng.randint(1, 6)):
         kind = rng.choices(
             ["call", "emit", "reopen-all", "reopen", "close-all", "drop",
-             "gc", "advance", "close-all-fault"],
-            [30, 20, 12, 8, 8, 10, 5, 7, 4])[0]
+             "gc", "advance", "close-all-fault", "ext-rotate"],
+            [30, 20, 12, 8, 8, 10, 5, 7, 4, 5])[0]
         if k_op == 0 and rng.random() < 0.8:
             kind = "call"
-        if kind in ("call", "reopen", "drop"):
+        if kind in ("call", "reopen", "drop", "ext-rotate"):
             history.append({"op": kind, "i": rng.randrange(nl)})
         elif kind == "emit":
             called_i = [o["i"] for o in history if o["op"] == "call"]
@@ -630,7 +634,26 @@ def generate(rng, tier, index):
             history.append({"op": kind, "j": rng.randrange(8)})
         else:
             history.append({"op": kind})
-    if nl >= 2 and rng.random() < 0.08:
+    plainfile = [li for li, lg in enumerate(loggers) if any(
+        h["path"] not in ("STDOUT", "STDERR") and not h.get("max_size")
+        and not h.get("when") for h in lg["handlers"])]
+    if plainfile and rng.random() < 0.12:
+        # scripted skeleton: the log file is moved away (or the link it is
+        # reached through is re-pointed) by an external rotation, then the
+        # application is told to reopen its log files: records written
+        # afterwards belong in the file the CONFIGURED PATH names now
+        li = rng.choice(plainfile)
+        history = [{"op": "call", "i": li}]
+        if rng.random() < 0.5:
+            history.append({"op": "emit", "i": li, "level": 50,
+                            "msg": "plain"})
+        history.append({"op": "ext-rotate", "i": li})
+        history.append(rng.choice([{"op": "reopen-all"},
+                                   {"op": "reopen", "i": li}]))
+        history.append({"op": "emit", "i": li, "level": 50, "msg": "plain"})
+        if rng.random() < 0.3:
+            history += [{"op": "ext-rotate", "i": li}, {"op": "reopen-all"}]
+    elif nl >= 2 and rng.random() < 0.08:
         # scripted skeleton: every logger instantiated, then closeFiles()
         # while the disk is full for ONE of the handlers (its flush raises),
         # then the registry is used again
@@ -864,6 +887,42 @@ def _execute(plan, out, scratch, w, clock, recs):
 
     text = config_text(plan, scratch)
     verdict, models = model_config(plan)
+    rotations = [0]
+    for lg in plan["loggers"]:
+        for hp in lg["handlers"]:
+            if hp.get("symlink") and not hp["path"].startswith("missing/"):
+                lp = os.path.join(scratch, hp["path"])
+                if not os.path.lexists(lp):
+                    os.symlink(lp + ".t0", lp)
+
+    def check_paths(step, li):
+        """After a reopen: every live plain file handler with an open stream
+        writes to the file its CONFIGURED path names now."""
+        for r in recs:
+            if r.kind != "plain" or r.closed or (li is not None
+                                                 and r.li != li):
+                continue
+            hh = r.ref()
+            if hh is None or hh.stream is None:
+                del hh
+                continue
+            cfgpath = os.path.join(
+                scratch, plan["loggers"][r.li]["handlers"][r.hi]["path"])
+            try:
+                a = os.fstat(hh.stream.fileno())
+                b = os.stat(cfgpath)
+                same = (a.st_ino, a.st_dev) == (b.st_ino, b.st_dev)
+            except OSError:
+                same = False
+            if not same:
+                violation("reopen", "wrong-file",
+                          "after reopen handler %d of logger %d does not "
+                          "write to the file its configured path %s names "
+                          "now (it writes to %s)" % (
+                              r.hi, r.li, cfgpath,
+                              getattr(hh.stream, "name", "?")), step)
+            probe("reopened-path-checked")
+            del hh
     w.begin_op("load-schema")
     so = _schema()
     w.end_op("ok")
@@ -1215,6 +1274,7 @@ def _execute(plan, out, scratch, w, clock, recs):
                 ensure_created(op["i"], step, "reopen")
                 _check_reopened(recs, before, violation, step, op["i"],
                                 probe)
+                check_paths(step, op["i"])
         elif kind == "reopen-all":
             before = _stream_ids(recs, None)
             try:
@@ -1223,6 +1283,7 @@ def _execute(plan, out, scratch, w, clock, recs):
                 violation("reopen-all", "raised", "reopenFiles() raised %s"
                           % ops.brief(ops.failure(e)), step)
             _check_reopened(recs, before, violation, step, None, probe)
+            check_paths(step, None)
             out["fired"]["reopen-all"] = out["fired"].get("reopen-all", 0) + 1
         elif kind == "close-all":
             live = [r for r in recs if r.kind in ("plain", "size", "timed")
@@ -1248,6 +1309,29 @@ def _execute(plan, out, scratch, w, clock, recs):
             out["fired"]["close-all"] = out["fired"].get("close-all", 0) + 1
             if live:
                 probe("close-all-with-live-handlers")
+        elif kind == "ext-rotate":
+            # environment: an external log rotation moves the files of one
+            # logger's plain file handlers away (or re-points the symbolic
+            # link the configured path is)
+            lg = plan["loggers"][op["i"]]
+            for hp in lg["handlers"]:
+                if hp["path"] in ("STDOUT", "STDERR") or hp.get("max_size") \
+                        or hp.get("when") or hp["path"].startswith("missing/"):
+                    continue
+                lp = os.path.join(scratch, hp["path"])
+                rotations[0] += 1
+                try:
+                    if os.path.islink(lp):
+                        os.remove(lp)
+                        os.symlink(lp + ".t%d" % rotations[0], lp)
+                    elif os.path.exists(lp):
+                        os.rename(lp, lp + ".ext%d" % rotations[0])
+                    else:
+                        continue
+                except OSError:
+                    continue
+                out["fired"]["external-rotation"] = out["fired"].get(
+                    "external-rotation", 0) + 1
         elif kind == "close-all-fault":
             # fault injection: the disk is full for one registered handler
             # (its flush raises ENOSPC once) while closeFiles() runs.  The
